@@ -1869,3 +1869,81 @@ trait PathMutApply { fn path_mut_apply(&mut self, op: &Op); }
 impl PathMutApply for RiRefBuf {
     fn path_mut_apply(&mut self, op: &Op) { let mut pm = self.path_mut(); apply_path_op(&mut pm, op); }
 }
+
+// =====================================================================  C06
+
+fn c06_feats(t: &model::Target, entry: &str, base: &[u8], reference: &[u8]) -> Feats {
+    let bsp = model::split(base);
+    let rsp = model::split(reference);
+    let (_a, rsegs) = model::segments(rsp.path);
+    let ambiguous = t.authority.is_none() && t.path.starts_with(b"//");
+    vec![
+        ("family", FAM.into()),
+        ("entry", entry.into()),
+        ("branch", t.branch.into()),
+        ("base_has_authority", yn(bsp.authority.is_some())),
+        ("ref_last_is_dot", yn(rsegs.last().map_or(false, |s| *s == b"." || *s == b".."))),
+        ("target_ambiguous", yn(ambiguous)),
+        ("target_path_leading_empty", yn(t.path.starts_with(b"//") || t.zone_a)),
+        ("empty_on_empty", yn(t.empty_on_empty)),
+        ("base_path", path_form(bsp.path).into()),
+    ]
+}
+
+/// Returns the text all entry points agreed on (for the cross-family comparison).
+pub fn c06(ctx: &mut Ctx, base: &str, reference: &str) -> Option<Vec<u8>> {
+    let (Ok(bi), Ok(r)) = (Ri::new(base), RiRef::new(reference)) else { ctx.stratum("skipped:rejected-by-library"); return None; };
+    let t = model::resolve(b(base), b(reference));
+    let rec = t.recompose();
+    let resplit = model::split(&rec);
+    let unambiguous = resplit.scheme == Some(&t.scheme[..]) && resplit.authority == t.authority.as_deref() && resplit.path == &t.path[..] && resplit.query == t.query.as_deref() && resplit.fragment == t.fragment.as_deref();
+    ctx.stratum(&format!("branch:{}", t.branch));
+    let rsp = model::split(b(reference));
+    let (_ra, rsegs) = model::segments(rsp.path);
+    let last_dot = rsegs.last().map_or(false, |s| *s == b"." || *s == b"..");
+    ctx.stratum(&format!("branch:{}:last-dot-{}", t.branch, yn(last_dot)));
+    if !unambiguous { ctx.stratum("target:ambiguous"); }
+    if t.zone_a { ctx.stratum("target:zone-a"); }
+    ctx.stratum(if model::split(b(base)).authority.is_some() { "base:authority" } else { "base:no-authority" });
+    // run the three entry points
+    let f = |e: &str| c06_feats(&t, e, b(base), b(reference));
+    ctx.call("resolved");
+    let a = match crate::ctx::guard(|| r.resolved(bi).as_bytes().to_vec()) { Ok(x) => x, Err(m) => { ctx.fail("C06.panic", f("resolved"), format!("resolved({}, base {}) panicked: {}", show(b(reference)), show(b(base)), m)); return None; } };
+    ctx.call("resolve");
+    let bb = match crate::ctx::guard(|| { let mut o = r.to_owned(); o.resolve(bi); o.as_bytes().to_vec() }) { Ok(x) => x, Err(m) => { ctx.fail("C06.panic", f("resolve"), format!("resolve in place ({}, base {}) panicked: {}", show(b(reference)), show(b(base)), m)); return None; } };
+    ctx.call("into_resolved");
+    let c = match crate::ctx::guard(|| r.to_owned().into_resolved(bi).as_bytes().to_vec()) { Ok(x) => x, Err(m) => { ctx.fail("C06.panic", f("into_resolved"), format!("into_resolved panicked: {}", m)); return None; } };
+    if bi.as_bytes() != b(base) {
+        ctx.fail("C06.base", f("resolved"), "the base was modified".into());
+    }
+    if a != bb || a != c {
+        ctx.fail("C06.entry-points", f("all"), format!("{} against {}: resolved() = {}, resolve() = {}, into_resolved() = {}", show(b(reference)), show(b(base)), show(&a), show(&bb), show(&c)));
+    }
+    let detail = |got: &[u8]| format!("{} resolved against {}: library {} ; RFC 3986 5.2 target {} (branch {})", show(b(reference)), show(b(base)), show(got), show(&rec), t.branch);
+    if std::str::from_utf8(&a).is_err() || !valid(Prod::Ri, &a) {
+        ctx.fail("C06.valid", f("resolved"), format!("{} - not a valid URI/IRI", detail(&a)));
+        return Some(a);
+    }
+    if unambiguous && !t.zone_a {
+        if a != rec {
+            ctx.fail("C06.target", f("resolved"), detail(&a));
+        }
+    } else {
+        // ambiguous RFC target (or don't-care zone (a)): same scheme/authority/query/fragment, path modulo shield
+        let asp = model::split(&a);
+        if asp.scheme != Some(&t.scheme[..]) || asp.authority != t.authority.as_deref() || asp.query != t.query.as_deref() || asp.fragment != t.fragment.as_deref() {
+            ctx.fail("C06.target", f("resolved"), format!("{} - scheme, authority, query or fragment differ from the RFC target's", detail(&a)));
+        } else if t.zone_a {
+            // the expected relative sequence starts with an empty segment: its text rendering is not
+            // faithful, compare logical segment sequences instead
+            let (aabs, as_) = segs_owned(asp.path);
+            if a != rec && (aabs || logical(&as_) != logical(&t.path_segs)) {
+                ctx.fail("C06.target", f("resolved"), format!("{} - path segments {} vs expected relative {}", detail(&a), segs_show(&as_), segs_show(&t.path_segs)));
+            }
+        } else if !model::path_matches_shielded(asp.path, &t.path, true, t.authority.is_some()) {
+            ctx.fail("C06.target", f("resolved"), format!("{} - the path is not an unambiguous rendering of the RFC path {}", detail(&a), show(&t.path)));
+        }
+    }
+    ctx.nontrivial_cur();
+    Some(a)
+}
